@@ -62,6 +62,20 @@ def gen(tier, rng):
         if trees and trees[0].is_cons():
             out.append("run %s slice %s tc { mode %s all } all" % (m, hx(data), rng.choice(modes)))
             out.append("run %s slice %s tc { %s } all" % (m, hx(data), " ".join(["tov G"] * rng.randrange(0, 4))))
+        # indefinite values whose terminator is damaged, read with exactly as many reads as there are children
+        if rng.random() < 0.35 and m != "der":
+            kids = [rand_tree(rng, em) for _ in range(rng.randrange(0, 3))]
+            kb = b"".join(k.encode() for k in kids)
+            for term in (b"\x00\x00", b"\x20\x00", b"\x00\x81\x00", b"\x00\x01\x00", b"\x00\x80", b"\x01\x00", b"\x00", b"", b"\x1f\x00\x00", b"\x00\x00\x00"):
+                d2 = b"\x30\x80" + kb + term
+                exact = " ".join(["tv G"] * len(kids))
+                out.append("run %s slice %s tc { %s }" % (m, hx(d2), exact))
+                out.append("run %s slice %s tc { %s toci c9 { } }" % (m, hx(d2), exact))
+                out.append("run %s slice %s seq { %s } all" % (m, hx(d2 + b"\x05\x00"), exact))
+                out.append("run %s slice %s all" % (m, hx(d2)))
+                # nested in a definite parent
+                if len(d2) < 120 and m == "ber":
+                    out.append("run ber slice %s tc { tc { %s } }" % (hx(b"\x31" + bytes([len(d2)]) + d2), exact))
         # child length vs parent remainder +-1
         if rng.random() < 0.3:
             inner = rand_tree(rng, em)
